@@ -202,6 +202,10 @@ func (g *Graph) resolveFuncValue(v ssa.Value, ctx *Ctx, depth int) ([]funcTarget
 			return nil, false
 		}
 		switch a := x.X.(type) {
+		case *ssa.IndexAddr:
+			// an element of a slice of function values (a step list handed to a runner): any of
+			// the functions stored into the slice at its construction site (order is not modelled)
+			return g.sliceElemFuncs(a.X, ctx, depth+1)
 		case *ssa.FieldAddr:
 			fns := g.P.FieldFuncs(a)
 			if len(fns) == 0 {
@@ -245,6 +249,50 @@ func (g *Graph) resolveFuncValue(v ssa.Value, ctx *Ctx, depth int) ([]funcTarget
 				}
 			}
 		}
+	}
+	return nil, false
+}
+
+// sliceElemFuncs: the function values a slice (or array) of functions may hold: follows a slice
+// parameter to the caller's argument and a slice expression to the stores into its array.
+func (g *Graph) sliceElemFuncs(v ssa.Value, ctx *Ctx, depth int) ([]funcTarget, bool) {
+	if depth > 8 {
+		return nil, false
+	}
+	switch x := v.(type) {
+	case *ssa.Parameter:
+		if ctx != nil && ctx.Site != nil && ctx.Fn == x.Parent() {
+			idx := -1
+			for i, q := range x.Parent().Params {
+				if q == x {
+					idx = i
+				}
+			}
+			args := siteArgs(ctx.Site, ctx.Fn)
+			if idx >= 0 && idx < len(args) {
+				return g.sliceElemFuncs(args[idx], ctx.Parent, depth+1)
+			}
+		}
+	case *ssa.Slice:
+		return g.sliceElemFuncs(x.X, ctx, depth+1)
+	case *ssa.Alloc:
+		var out []funcTarget
+		for _, r := range *x.Referrers() {
+			ia, ok := r.(*ssa.IndexAddr)
+			if !ok {
+				continue
+			}
+			for _, rr := range *ia.Referrers() {
+				if st, ok := rr.(*ssa.Store); ok && st.Addr == ssa.Value(ia) {
+					ts, ok := g.resolveFuncValue(st.Val, ctx, depth+1)
+					if !ok {
+						return nil, false
+					}
+					out = append(out, ts...)
+				}
+			}
+		}
+		return out, len(out) > 0
 	}
 	return nil, false
 }
